@@ -19,7 +19,7 @@ type ctx struct {
 }
 
 func (c *ctx) thorough() bool { return c.tier == "thorough" }
-func (c *ctx) drv() *Driver    { return &Driver{path: c.driver} }
+func (c *ctx) drv() *Driver   { return &Driver{path: c.driver} }
 
 var checks = map[string]func(*ctx){}
 
